@@ -12,7 +12,7 @@ from ..ref import camx_u, rfortran as rf
 from .. import camx_lib as cl
 
 WRITABLE = ('uamiv', 'lateral_boundary', 'humidity', 'vertical_diffusivity', 'one3d', 'temperature',
-            'height_pressure', 'wind')
+            'height_pressure', 'wind', 'cloud_rain')
 
 
 def scope_of(d, r):
@@ -63,6 +63,8 @@ def build_hand(r):
         f.PLON, f.PLAT, f.IUTM, f.CPROJ = g['plon'], g['plat'], g['iutm'], g['iproj']
         f.TLAT1, f.TLAT2, f.ISTAG = g['tlat1'], g['tlat2'], g['istag']
         f.XORIG, f.YORIG, f.XCELL, f.YCELL = g['xorg'], g['yorg'], g['delx'], g['dely']
+    if fmt == 'cloud_rain':
+        f.FILEDESC = r['cldhdr']
     if fmt == 'wind':
         f.LSTAGGER = float('nan') if r.get('lstagger', 0) is None else np.array(r.get('lstagger', 0), dtype='>i')[()]
     f.SDATE, f.STIME, f.TSTEP = tb[0][0], tb[0][1], 10000
@@ -87,7 +89,9 @@ class Prop(core.Prop):
     ]
 
     def bounds(self, tier):
-        return {f: len(camx_u.descs(f, tier)) for f in camx_u.FORMATS}
+        b = {f: len(camx_u.descs(f, tier)) for f in camx_u.FORMATS}
+        b['landuse'] = len(camx_u.landuse_descs(tier))
+        return b
 
     def worker_init(self):
         core.load_lib()
@@ -114,6 +118,55 @@ class Prop(core.Prop):
         for fmt in camx_u.FORMATS:
             for d in camx_u.descs(fmt, tier):
                 yield d
+        for d in camx_u.landuse_descs(tier):
+            yield d
+
+    def run_landuse(self, d):
+        r = camx_u.materialize_landuse(d)
+        raw = rf.enc_landuse(r)
+        p = self.path('ref')
+        with open(p, 'wb') as fh:
+            fh.write(raw)
+        scope = dict(fmt='landuse', style=d['style'], others='+'.join(d['others']) or 'none',
+                     shape='x'.join(str(x) for x in d['shape']), payload=d['payload'],
+                     ncell=d['shape'][0] * d['shape'][1])
+        vs = []
+        ntrans = 1
+        f = None
+        try:
+            f = cl.open_lu(p, r)
+            for c, det in cl.lu_compare(f, r):
+                vs.append(viol('read-' + c, ('reader', 'landuse'), det, **scope))
+        except Exception as e:
+            vs.append(viol('read-raises', ('reader', 'landuse'), '%s: %r' % (type(e).__name__, e),
+                           exc=type(e).__name__, **scope))
+        sources = [('writer', f)] if f is not None and not vs else []
+        try:
+            sources.append(('writer-hand-built', cl.lu_hand(r)))
+        except Exception as e:
+            vs.append(viol('harness', ('hand', 'landuse'), repr(e), **scope))
+        for tag, src in sources:
+            q = self.path('out')
+            if os.path.exists(q):
+                os.unlink(q)
+            try:
+                cl.write('landuse', src, q)
+                ntrans += 1
+                wraw = open(q, 'rb').read()
+                dec = rf.dec_landuse(wraw, r['ny'], r['nx'])
+                diffs = cl.lu_recipe_diff(dec, r)
+                for c, det in diffs:
+                    vs.append(viol('write-' + c, (tag, 'landuse'), det, **scope))
+                if not diffs and wraw != raw:
+                    vs.append(viol('write-bytes', (tag, 'landuse'), 'decodes to the recipe but differs from the '
+                                   'reference encoding (%d vs %d bytes)' % (len(wraw), len(raw)), **scope))
+            except rf.LayoutError as e:
+                vs.append(viol('write-layout', (tag, 'landuse'), str(e), **scope))
+            except Exception as e:
+                vs.append(viol('write-raises', (tag, 'landuse'), '%s: %r' % (type(e).__name__, e),
+                               exc=type(e).__name__, **scope))
+        return result('viol' if vs else 'ok', vs, [h64(raw)], ntrans, h64('c09', sorted(d.items(), key=str)),
+                      h64(raw) if not vs else None)
 
     def hand_built(self, d, r, raw, scope):
         """library writer fed with a file built in memory (no ETFLAG, no boundary
@@ -146,6 +199,8 @@ class Prop(core.Prop):
         return os.path.join(self.tmp, '%s_%d.bin' % (tag, os.getpid()))
 
     def run_one(self, d):
+        if d['fmt'] == 'landuse':
+            return self.run_landuse(d)
         r = camx_u.materialize(d)
         fmt = d['fmt']
         raw = camx_u.encode(r)
